@@ -27,17 +27,22 @@ def layers(ctx):
     return [layer_rhs1d, layer_flux_euler, layer_int]
 
 
-def conv_error(num, integ, n, a, k, phase, cfl, x0=0.0):
-    msh = impl.mesh.unimesh(ncell=n, length=1.0, x0=x0)
+def conv_error(num, integ, n, a, k, phase, cfl, x0=0.0, amp=1.0, meshcls=None):
+    if meshcls == 'refined':
+        msh = impl.mesh.refinedmesh(ncell=n, length=1.0, ratio=2.0, nratioa=1, nratiob=1)
+    elif meshcls == 'morphed':
+        msh = impl.mesh.morphedmesh(ncell=n, length=1.0, morph=lambda x: x + 0.08 * np.sin(2 * np.pi * x))
+    else:
+        msh = impl.mesh.unimesh(ncell=n, length=1.0, x0=x0)
     mod = impl.convection.model(a)
     disc = impl.modeldisc.fvm(mod, msh, num)
     # cell averages of sin(2 pi k x + phase)
     xf = msh.xf
-    avg = lambda sh: -(np.cos(2 * np.pi * k * (xf[1:] - sh) + phase) - np.cos(2 * np.pi * k * (xf[:-1] - sh) + phase)) / (2 * np.pi * k) / np.diff(xf)
+    avg = lambda sh: -amp * (np.cos(2 * np.pi * k * (xf[1:] - sh) + phase) - np.cos(2 * np.pi * k * (xf[:-1] - sh) + phase)) / (2 * np.pi * k) / np.diff(xf)
     f = impl.field.fdata(mod, msh, [avg(0.0)])
     T = 0.25
     out = getattr(impl.integ, integ)(msh, disc).solve(f, cfl, [T])[-1]
-    return float(np.sum(np.abs(out.data[0] - avg(a * T)) * msh.vol()))
+    return float(np.sum(np.abs(out.data[0] - avg(a * T)) * np.diff(xf))) / amp
 
 
 def riemann_error(flux, num, integ, n, gam, L, R, T):
@@ -73,9 +78,10 @@ def oracle(ctx, seeds=None):
         cfl = 0.1 if name in ('extrapol3', 'centered') else 0.3     # keep the temporal error below the spatial one
         ns = (40, 80, 160) if name != 'extrapol3' else (24, 48, 96)
         x0 = float(rng.choice([0.0, 1.0, -4.0, 2.5, rng.normal()]))      # the origin of the periodic domain is arbitrary
-        ok, errs = impl.guarded(lambda: [conv_error(num(), integ, n * k, a, k, phase, cfl, x0) for n in ns])
+        amp = float(rng.choice([1.0, 1e-4, 1e-7, 1e5]))          # linear convection is scale invariant: the order does not depend on the amplitude
+        ok, errs = impl.guarded(lambda: [conv_error(num(), integ, n * k, a, k, phase, cfl, x0, amp) for n in ns])
         res.case(('order', name, lim, integ, np.sign(a), k))
-        rp = dict(kind='order', scheme=name, limiter=lim, integrator=integ, a=a, k=k, phase=phase, x0=x0)
+        rp = dict(kind='order', scheme=name, limiter=lim, integrator=integ, a=a, k=k, phase=phase, x0=x0, amplitude=amp)
         if not ok:
             res.fail('order/%s:raised' % name, errs, rp); continue
         if not all(np.isfinite(errs)) or errs[2] <= 0:
@@ -88,6 +94,18 @@ def oracle(ctx, seeds=None):
             res.fail('order/%s%s' % (name, ':' + lim if lim else ''), "observed order %.2f < design order %d (L1 errors %r, %s, a=%r k=%d)" % (obs, expected, errs, integ, a, k), rp)
         if name not in ('extrapol3', 'muscl') and name != 'extrapol1' and obs > expected + 0.8:
             res.count('super-convergent-' + name)
+    # ---- the non-uniform mesh classes: the first- and second-order schemes still converge (error decreasing, order >= ~1)
+    for meshcls in ('refined', 'morphed'):
+        for name in ('extrapol1', 'extrapol2'):
+            a = float(rng.choice([1.0, -1.0])); phase = float(rng.uniform(0, 2 * np.pi))
+            ok, errs = impl.guarded(lambda: [conv_error(getattr(impl.xnum, name)(), 'rk3ssp', n, a, 1, phase, 0.3, 0.0, 1.0, meshcls) for n in (40, 80, 160)])
+            res.case(('order-nonuniform', meshcls, name))
+            rp = dict(kind='order-nonuniform', mesh=meshcls, scheme=name, a=a, phase=phase)
+            if not ok:
+                res.fail('order/%s:raised' % name, errs, rp); continue
+            obs = float(np.log2(errs[1] / errs[2])) if errs[2] > 0 else 9.9
+            if not (errs[2] < errs[1] < errs[0]) or obs < 0.7:
+                res.fail('order/%s:%smesh' % (name, meshcls), "on a %smesh the L1 errors %r do not decrease at order >= 0.7 (observed %.2f)" % (meshcls, errs, obs), rp)
     # ---- Riemann problems: L1 error decreases under refinement, against the independent exact solver
     SOD_L, SOD_R = (1.0, 0.0, 1.0), (0.125, 0.0, 0.1)
     canon = []
